@@ -333,6 +333,46 @@ def oracle_flags(cases, rng):
     return fails, len(meta)
 
 
+def probe_after_mismatch(cases, rng):
+    jobs, meta = [], []
+    for c in cases:
+        ws = worlds_along(c)
+        w = ws[-1] if ws else c["world"]
+        follow = []
+        for r in w["refs"]:
+            follow.append([["setref", r["rid"], r["val"] + 7]])
+        for cl in w["cells"]:
+            if cl["cached"]:
+                k = [rng.randint(0, 3) for _ in range(cl["nparams"])]
+                follow.append([["setv", cl["cid"], k, 41]])
+                follow.append([["clearat", cl["cid"], k]])
+        for k in range(1, len(c["ops"]) + 1, max(1, len(c["ops"]) // 6)):
+            for f in follow:
+                base = {"world": c["world"], "ops": c["ops"][:k] + f}
+                ws2 = worlds_along(base)
+                qs = queries(ws2[-1], rng, n=16)
+                jobs += [live_twin(base, len(base["ops"]), qs), edits_only_twin(base, len(base["ops"]), qs)]
+                meta.append(qs)
+    if not jobs:
+        return []
+    res = fw.run_driver("exec", jobs)
+    fails = []
+    for j, qs in enumerate(meta):
+        live, fresh = res[2 * j], res[2 * j + 1]
+        lo = [ob["out"] for ob in live["obs"][-len(qs):]]
+        fo = [ob["out"] for ob in fresh["obs"][-len(qs):]]
+        for q, a, b in zip(qs, lo, fo):
+            if not same_result(a, b, none_ok=False):
+                fails.append({"case": jobs[2 * j], "query": q,
+                              "detail": "found by probing a history on which model and implementation diverge: live model answers %r, "
+                                        "a model that replayed only the edits answers %r" % (a, b),
+                              "script": script_for(jobs[2 * j], "compare with the edits-only replay")})
+                break
+        if len(fails) >= 3:
+            break
+    return fails
+
+
 # --------------------------------------------------------------------------
 # generic runner
 # --------------------------------------------------------------------------
@@ -381,6 +421,13 @@ def run_exec_property(prop, tier, rng, n_quick, n_thorough, gen_kw, weights, nop
         out.notes.append("generator avoids the trigger of %s" % key)
     n = n_quick if tier == "quick" else n_thorough
     g = execlib.Gen(rng, **gen_kw)
+    import glob, os
+    corpus = list(corpus)
+    for f in sorted(glob.glob(os.path.join(fw.VERIF, "corpus", prop, "*.json"))):
+        if not os.path.basename(f).startswith("finding_"):
+            d = json.load(open(f))
+            if "world" in d and "ops" in d:
+                corpus.append({"world": d["world"], "ops": d["ops"]})
     cases = list(corpus)
     while len(cases) < n + len(corpus):
         w = g.world()
@@ -396,8 +443,10 @@ def run_exec_property(prop, tier, rng, n_quick, n_thorough, gen_kw, weights, nop
             if ob["out"][0] == "err" and ob["out"][1].startswith("other"):
                 broken.add(ci)
     for ci in sorted(broken)[:3]:
-        out.tie_mismatches.append({"case": cases[ci], "detail": "the implementation raised an exception outside the modelled vocabulary: %r"
-                                   % [ob["out"] for ob in res[ci]["obs"] if ob["out"][0] == "err" and ob["out"][1].startswith("other")][:2]})
+        bad = [(k, ob["out"]) for k, ob in enumerate(res[ci]["obs"]) if ob["out"][0] == "err" and ob["out"][1].startswith("other")]
+        out.p_failures.append({"case": cases[ci], "op_index": bad[0][0],
+                               "detail": "an operation of the modelled vocabulary raised an unexpected exception (the session is not in a consistent, usable state): %r" % (bad[:2],),
+                               "script": script_for(cases[ci], prop + ": unexpected exception")})
     good = [i for i in range(len(cases)) if i not in broken]
     # (P)
     for i in good:
@@ -416,6 +465,14 @@ def run_exec_property(prop, tier, rng, n_quick, n_thorough, gen_kw, weights, nop
         i = good[b]
         out.tie_mismatches.append({"case": cases[i], "impl_obs_first": res[i]["obs"][:1],
                                    "detail": "Exec/Model.v step differs from modelx; first differing op: " + execlib.explain(prop, cases[i], res[i])})
+    if bad and not out.p_failures:
+        # the model no longer describes the code: search around the diverging histories for an input on which
+        # the property itself fails (follow-up edits of every reference / input, then the edits-only differential)
+        out.p_failures += probe_after_mismatch([cases[good[b]] for b in bad[:8]], rng)
+        out.notes.append("correspondence mismatch: probed %d diverging histories with follow-up edits" % min(len(bad), 8))
+    nohyp = execlib.hypotheses(prop, [cases[i] for i in good], [res[i] for i in good])
+    out.extra["cases_meeting_theorem_hypotheses"] = len(good) - len(nohyp)
+    out.extra["theorem_hypotheses"] = "defs_ok (no call inside try), refn_ok (by-name reads of visible references), well-formed formula edits, no formula re-entered while executing"
     out.evaluations = len(cases)
     out.traces_validated = len(good) - len(bad)
     out.distinct_nontrivial = len({json.dumps(c, sort_keys=True) for c, r in zip(cases, res) if nontrivial(c, r)})
